@@ -1440,6 +1440,11 @@ func (u *Unit) callAsserts(fr *Frame, st *State, b *ssa.BasicBlock) {
 			}
 		}
 		g := u.evalIn(env, cl)
+		if cl.assumeAt {
+			u.assume(st.guard, g)
+			u.noteHavoc("assumed invariant in " + u.name + ": " + cl.text)
+			continue
+		}
 		u.oblige("assert", strings.TrimPrefix(cl.at, "call:")+"-"+labelOr(cl, ats), st, g, token.NoPos, cl.text)
 	}
 }
